@@ -16,7 +16,7 @@ REQUIRED = ['adjOrder_length', 'adjOrder_mem', 'adjOrder_symmetric', 'adjOrder_v
             'execStmts_atoms', 'write_atoms', 'writes_pass', 'execRep_scans', 'group_scans_replayed', 'wg_groups_replayed', 'nasu_passes_replayed', 'mk_scans_replayed',
             'execOps_append_ok', 'shipped_headers_still', 'moveTo_run', 'head_run', 'wg_file_replayed',
             'linear_chainOK', 'runSegs_chainOK', 'built_closed', 'built_group_hyps',
-            'lastOp_run', 'file_replayed', 'nasuOps_eq', 'nasu_file_replayed', 'mk_rep_pre', 'mk_body_moves', 'mk_file_replayed']
+            'lastOp_run', 'file_replayed', 'nasuOps_eq', 'nasu_file_replayed', 'mk_rep_pre', 'mk_body_moves', 'mk_file_replayed', 'append_chainOK', 'finish_closed']
 RULE = ('stream adj: NasuWaveguide.adj_scan_order for every adj_scan in 1..64 (exhaustive over that range) compared exactly with the '
         'model and judged directly (length, symmetric, unit spacing, outward).  stream writers: real WaveguideWriter / NasuWriter / '
         'MarkerWriter on random object lists (scans 1..7, groups of equal scan, adj_scan 1..9 odd and even, 3-D shifts, empty '
